@@ -214,9 +214,17 @@ def run(ctx):
         return search(ctx, state)
 
     ok = vlib.proof_stage(ctx, ["SqiProps.C20"], searcher=searcher, extra_targets=["driver"])
-    if ok:
-        # the driver binary may predate the regenerated SqiGen: proof_stage built it (extra_targets)
-        pass
+    if not ok:
+        # a translator refusal ends proof_stage before the violation search: run it here, so that the refusal is reported
+        # together with a concrete failing input of the property whenever the real code has one
+        tv = [v for v in ctx.violations if str(v["key"]).startswith("translator:")]
+        if tv:
+            res = search(ctx, state)
+            if res:
+                key, what, replay = res
+                replay = dict(replay); replay["broken_obligations"] = [v["key"] for v in tv]
+                ctx.violations = [v for v in ctx.violations if v not in tv]
+                ctx.violation(key, what, replay, found=True)
     b = ctx.build_repo("ref", targets=None)
     state["build"] = b
     exe = os.path.join(ctx.tmp, "drv_hash")
